@@ -31,6 +31,7 @@ var levels = []uint16{0, 1, 0x00FF, 0x0100, 0xFFFF}
 var ctsValues = []uint32{0, 1, 0xFFFF, 0x10000, 0xFFFFFF}
 
 const chunk = 512
+const histSessions = 8
 
 // seen is a small concurrent set of observed values, turned into counters at the end.
 type seen struct {
@@ -454,7 +455,8 @@ func TestVerif_C10_Audio(t *testing.T) {
 	cs := enumAudio()
 	nr := m.N(0, 3000000)
 	total := len(cs) + nr
-	m.Require("evaluations", int64(total))
+	m.Require("evaluations", int64(total+len(cs)))
+	m.Require("history_cases_on_long_lived_packagers", int64(len(cs)))
 	m.Require("frames_roundtrip_checked", 20000)
 	m.Require("canonical_accepted", 20000)
 	m.Require("audio_formats_decoded_distinct", 16)
@@ -485,6 +487,26 @@ func TestVerif_C10_Audio(t *testing.T) {
 				m.Count("random_cases", 1)
 				checkAudio(m, vc, sn, ap, kp, &c, r, i)
 			}
+		}
+	})
+	// history pass: the whole grid once more in a PRNG order on 8 long-lived packagers (one per session, never renewed), so that
+	// every kind of body is also decoded/encoded AFTER arbitrary other kinds on the same packager — the grid order above always
+	// meets the plain form of a first byte before its flagged forms, and renews the packager every 512 cases
+	mon.Parallel(histSessions, func(w, s int) {
+		ap, err := flv.NewAudioPackager()
+		if err != nil {
+			return
+		}
+		r := m.Rand("audio-history", s)
+		kp := &keeper{}
+		var mine []int
+		for i := s; i < len(cs); i += histSessions {
+			mine = append(mine, i)
+		}
+		for _, j := range r.Perm(len(mine)) {
+			m.Case()
+			m.Count("history_cases_on_long_lived_packagers", 1)
+			checkAudio(m, vc, sn, ap, kp, &cs[mine[j]], r, mine[j])
 		}
 	})
 	sn.flush(m)
@@ -692,7 +714,8 @@ func TestVerif_C10_Video(t *testing.T) {
 	cs := enumVideo()
 	nr := m.N(0, 3000000)
 	total := len(cs) + nr
-	m.Require("evaluations", int64(total))
+	m.Require("evaluations", int64(total+len(cs)))
+	m.Require("history_cases_on_long_lived_packagers", int64(len(cs)))
 	m.Require("frames_roundtrip_checked", 100000)
 	m.Require("canonical_accepted", 100000)
 	m.Require("video_frame_types_decoded_distinct", 16)
@@ -724,6 +747,26 @@ func TestVerif_C10_Video(t *testing.T) {
 				m.Count("random_cases", 1)
 				checkVideo(m, vc, sn, vp, kp, &c, r, i)
 			}
+		}
+	})
+	// history pass: the whole grid once more in a PRNG order on 8 long-lived packagers (one per session, never renewed), so that
+	// every kind of body is also decoded/encoded AFTER arbitrary other kinds on the same packager — the grid order above always
+	// meets the plain form of a first byte before its flagged forms, and renews the packager every 512 cases
+	mon.Parallel(histSessions, func(w, s int) {
+		vp, err := flv.NewVideoPackager()
+		if err != nil {
+			return
+		}
+		r := m.Rand("video-history", s)
+		kp := &keeper{}
+		var mine []int
+		for i := s; i < len(cs); i += histSessions {
+			mine = append(mine, i)
+		}
+		for _, j := range r.Perm(len(mine)) {
+			m.Case()
+			m.Count("history_cases_on_long_lived_packagers", 1)
+			checkVideo(m, vc, sn, vp, kp, &cs[mine[j]], r, mine[j])
 		}
 	})
 	sn.flush(m)
